@@ -9,7 +9,7 @@ RULE = ("complete enumeration: every n<=150 (thorough 400) for compress/reinflat
         "every (N,W), N<=10, W<=14 (thorough 16x20) for both location helpers over all (block,i,j); each memoised helper called twice, "
         "a second interpreter enumerates in reverse order; non-trivial = a distinct matrix size n>=2 or a distinct (N,W) with N>=2 and W>=2")
 ASSUMPTIONS = ["reference: direct enumeration of the upper triangle in row-major order"]
-SHARD_TIMEOUT = {"quick": 600, "thorough": 3000}
+SHARD_TIMEOUT = {"quick": 300, "thorough": 3000}
 
 
 def plan(tier, seed):
